@@ -136,9 +136,69 @@ def scan(tree, modname):
     return found
 
 
+def id_in_text_sites(tree):
+    """[(function, lineno)]: a node id (``<expr>.id``) is formatted into the
+    text of a Node that is being constructed - f-string, str(), format(), %
+    inside the arguments of ``Node(...)``.  Ids are drawn from one counter
+    shared by the main process (the feeder thread generates candidates ahead)
+    and the worker: their values depend on timing even with one job.  As
+    keys of a substitution they never reach the file; as text they do."""
+    sites = []
+
+    def formatted_ids(e):
+        out = []
+        for n in ast.walk(e):
+            inner = []
+            if isinstance(n, ast.JoinedStr):
+                inner = [v.value for v in n.values
+                         if isinstance(v, ast.FormattedValue)]
+            elif isinstance(n, ast.Call) and (
+                    (isinstance(n.func, ast.Name) and n.func.id in
+                     ('str', 'repr', 'format')) or
+                    (isinstance(n.func, ast.Attribute) and
+                     n.func.attr == 'format')):
+                inner = list(n.args) + [k.value for k in n.keywords]
+            elif isinstance(n, ast.BinOp) and isinstance(n.op, ast.Mod):
+                inner = [n.right]
+            for x in inner:
+                out.extend(a for a in ast.walk(x)
+                           if isinstance(a, ast.Attribute) and a.attr == 'id'
+                           and isinstance(a.ctx, ast.Load))
+        return out
+
+    def visit(node, qual):
+        for ch in ast.iter_child_nodes(node):
+            q = qual
+            if isinstance(ch, (ast.FunctionDef, ast.ClassDef)):
+                q = (qual + '.' if qual else '') + ch.name
+            if isinstance(ch, ast.Call) and isinstance(ch.func, ast.Name) \
+                    and ch.func.id == 'Node':
+                for a in list(ch.args) + [k.value for k in ch.keywords]:
+                    if formatted_ids(a):
+                        sites.append((q, ch.lineno))
+                        break
+            visit(ch, q)
+
+    visit(tree, '')
+    return sites
+
+
 def run_static(eng, p):
     bad = []
     seen = 0
+    id_sites = []
+    for m in MODULES:
+        path = os.path.join(eng.repo, 'ddsmt', m + '.py')
+        for qual, line in id_in_text_sites(ast.parse(open(path).read())):
+            id_sites.append((m, qual, line))
+    # one obligation per site, so that a known site never hides another
+    for m, qual, line in id_sites:
+        p.oblige(f'C18/static/no-node-id-in-leaf-text[{m}.{qual}]', False,
+                 info={'site': f'{m}.py:{line}', 'signature':
+                       f'{m}.{qual} formats a node id into the text of a '
+                       'Node: the id depends on timing, the text is written '
+                       'to the file'})
+    p.oblige('C18/static/node-id-scan-ran', True)
     for m in MODULES:
         path = os.path.join(eng.repo, 'ddsmt', m + '.py')
         tree = ast.parse(open(path).read())
